@@ -16,6 +16,8 @@ VERIF = os.path.dirname(os.path.dirname(os.path.abspath(__file__)))
 REPO = os.environ.get("LMS_REPO", "/repo")
 CACHE = os.path.join(VERIF, ".cache")
 DRIVER = os.path.join(VERIF, "driver", "target", "release", "lmsfacts")
+# scratch / mutant runs keep their facts elsewhere so the main cache is not pruned
+FACTS_DIR = os.environ.get("LMS_FACTS_DIR", os.path.join(CACHE, "facts"))
 
 # Build configurations.  `env` overrides the defaults of /repo/.cargo/config.toml.
 CONFIGS = {
@@ -124,7 +126,7 @@ def extract(name, cfg=None, repo=None, crate="hbs_lms", slot=0):
     repo = repo or REPO
     cfg = cfg or CONFIGS[name]
     digest = source_digest(repo)
-    outdir = os.path.join(CACHE, "facts", digest)
+    outdir = os.path.join(FACTS_DIR, digest)
     os.makedirs(outdir, exist_ok=True)
     out = os.path.join(outdir, name + ".json")
     errf = os.path.join(outdir, name + ".err")
@@ -138,6 +140,7 @@ def extract(name, cfg=None, repo=None, crate="hbs_lms", slot=0):
     tname = "target-%s-%d" % ("+".join(cfg["features"]) or "nofeat", slot)
     tdir = os.path.join(CACHE, tname)
     os.makedirs(tdir, exist_ok=True)
+    os.makedirs(CACHE, exist_ok=True)
     lock = open(os.path.join(CACHE, tname + ".lock"), "w")
     fcntl.flock(lock, fcntl.LOCK_EX)
     try:
@@ -190,7 +193,7 @@ def extract(name, cfg=None, repo=None, crate="hbs_lms", slot=0):
 
 def prune_cache(keep_digest):
     """Remove fact sets of older trees (disk hygiene)."""
-    d = os.path.join(CACHE, "facts")
+    d = FACTS_DIR
     if not os.path.isdir(d):
         return
     keep = {keep_digest}
